@@ -91,7 +91,11 @@ impl Exec for Reduce {
 
 impl ReturnType for Reduce {
     fn return_type(&self) -> Type {
-        self.function.return_type().return_type().unwrap() | self.initial_value.return_type()
+        self.function
+            .return_type()
+            .return_type()
+            .unwrap_or(Type::Never)
+            | self.initial_value.return_type()
     }
 }
 
